@@ -8,7 +8,10 @@ bad=0
 for p in "${P[@]}"; do
   name=$(echo $p | sed 's#/patch.diff##; s#.*/##; s#\.patch$##'); own=${name:0:3}
   out=$(tools/mutant.sh $p $own 2>&1)
-  v=$(echo "$out" | grep -c '^VIOLATION'); n=$(echo "$out" | grep -c '^  note:')
+  # the verdict is taken from the summary lines ("Cxx quick: wall=.. violations=N"): mutant.sh shows only the
+  # tail of the output, and many "note:" lines can push the VIOLATION lines out of it
+  v=$(echo "$out" | grep -o 'violations=[0-9]*' | cut -d= -f2 | paste -sd+ | bc); v=${v:-0}
+  n=$(echo "$out" | grep -c '^  note:')
   flag=""; [ $v = 0 ] && { flag="  <-- NOT DETECTED"; bad=1; }
   echo "$name: violations=$v dropped-as-interference=$n$flag"
 done
